@@ -4,7 +4,7 @@
 declspec / specdecl : one line = built-in type keywords separated by blanks (C spelling); answer `ok ty_long` | `diag`
 layout / speclayout : one line = a type in prefix syntax
      T ::= p <ty_name> | e | ptr | a <len> T | f T | s <packed 0|1> <aligned n|-> <k> M*k | u <packed> <aligned> <k> M*k
-     M ::= m <alignas n (0 = none)> <bit width|-> <named 0|1> T
+     M ::= m <alignas n (0 = none)> <bit width|-> <named 0|1> T   |   M <bit width|-> <named 0|1> Ta T     (`_Alignas(Ta)`)
   answer `ok <size> <align>` followed, for struct/union, by ` | <offset> <bit_offset>` per member
   (speclayout: ` | <first bit> <unit offset> <bit in unit>`), or `fail divzero`, or `bad-op`.
 -/
@@ -53,6 +53,12 @@ mutual
       let (t, r') ← parseTy r
       let (rest, r'') ← parseMembers k r'
       pure (.cons { alignas := aa, bitWidth := w, named := nm == "1" } t rest, r'')
+    | k+1, "M" :: w :: nm :: r => do
+      let w ← optInt w
+      let (ta, r1) ← parseTy r
+      let (t, r') ← parseTy r1
+      let (rest, r'') ← parseMembers k r'
+      pure (.consT { alignas := 0, bitWidth := w, named := nm == "1" } ta t rest, r'')
     | _, _ => none
 end
 
